@@ -132,6 +132,15 @@ static void campaign() {
 
 
 // ---- second campaign: bodies that go through the stateful body consumers (multipart, urlencoded, inflate) ----------
+#if __has_include(<lzma.h>)
+#include <lzma.h>
+#define C03_HAVE_LZMA 1
+static std::string lzpack(const std::string &in) { lzma_options_lzma opt; if (lzma_lzma_preset(&opt, 1)) return ""; opt.dict_size = 4096; lzma_stream s = LZMA_STREAM_INIT; if (lzma_alone_encoder(&s, &opt) != LZMA_OK) return "";
+    std::string out(in.size() + in.size() / 3 + 4096, '\0'); s.next_in = (const uint8_t *)in.data(); s.avail_in = in.size(); s.next_out = (uint8_t *)&out[0]; s.avail_out = out.size(); lzma_ret rc = lzma_code(&s, LZMA_FINISH); out.resize(rc == LZMA_STREAM_END ? s.total_out : 0); lzma_end(&s); return out; }
+#else
+#define C03_HAVE_LZMA 0
+static std::string lzpack(const std::string &) { return ""; }
+#endif
 static std::string zpack(const std::string &in, int wbits) { // wbits: 31 gzip, 15 zlib, -15 raw deflate
     z_stream z; memset(&z, 0, sizeof z); if (deflateInit2(&z, 6, Z_DEFLATED, wbits, 8, Z_DEFAULT_STRATEGY) != Z_OK) return "";
     std::string out(deflateBound(&z, in.size()) + 64, '\0'); z.next_in = (Bytef *)in.data(); z.avail_in = (uInt)in.size(); z.next_out = (Bytef *)&out[0]; z.avail_out = (uInt)out.size();
@@ -164,7 +173,7 @@ static std::string gen_urlencoded() {
     static const char *T[] = {"a", "b1", "=", "&", "%41", "%", "%4", "+", "%u0041", "%00", "xyz", "%2", "&&", "=="};
     std::string s; int n = rcx::sized(1, 14); for (int i = 0; i < n; i++) s += T[rcx::range(0, 13)]; return s;
 }
-struct BodyCase { int pers; std::string rq, rs; size_t rq_body_at, rs_body_at; std::string kind; bool big = false; bool restart_expected = false; /* zlib-wrapped "deflate", truncated streams, trailing garbage: the only shapes for which a decompressor restart (T3, known finding D7) is normal */ };
+struct BodyCase { int pers; std::string rq, rs; size_t rq_body_at, rs_body_at; std::string kind; bool big = false; size_t long_line = 0; bool restart_expected = false; /* zlib-wrapped "deflate", truncated streams, trailing garbage: the only shapes for which a decompressor restart (T3, known finding D7) is normal */ };
 static std::string frame(const std::string &body, bool chunked, const std::string &extra_headers, std::string &head) {
     if (!chunked) { head += extra_headers + "Content-Length: " + std::to_string(body.size()) + "\r\n\r\n"; return body; }
     head += extra_headers + "Transfer-Encoding: chunked\r\n\r\n"; std::string w; size_t p = 0;
@@ -172,11 +181,23 @@ static std::string frame(const std::string &body, bool chunked, const std::strin
     return w + "0\r\n\r\n";
 }
 static BodyCase gen_body_case() {
-    BodyCase c; c.pers = rcx::range(0, 9); int k = rcx::range(0, 3);
+    BodyCase c; c.pers = rcx::range(0, 9); int k = rcx::range(0, 5);
+    if (k == 5) { // one line longer than the soft field limit (9000) and shorter than the hard one (18000): legal in one piece, so it must be legal in pieces
+        static const int LN[] = {8960, 9001, 9100, 12000, 17000, 17900}; size_t L = (size_t)LN[rcx::range(0, 5)] + (size_t)rcx::range(0, 40); std::string fill(L, 'p'); for (size_t i = 0; i < L; i += 61) fill[i] = (char)('a' + (i / 61) % 26);
+        int where = rcx::range(0, 4); std::string rq = "GET /ll HTTP/1.1\r\nHost: h.example\r\n", rs = "HTTP/1.1 200 OK\r\n";
+        if (where == 0) { c.rq_body_at = 0; rq = "GET /" + fill + " HTTP/1.1\r\nHost: h.example\r\n"; c.kind = "long_line_request_target"; }
+        else if (where == 1) { c.rq_body_at = rq.size(); rq += "X-Long: " + fill + "\r\n"; c.kind = "long_line_request_header"; }
+        else if (where == 2) { c.rq_body_at = rq.size(); rq += "Cookie: a=" + fill.substr(0, L / 2) + "; b=" + fill.substr(L / 2) + "\r\n"; c.kind = "long_line_request_cookie"; }
+        else if (where == 3) { c.rs_body_at = rs.size(); rs += "X-Long: " + fill + "\r\n"; c.kind = "long_line_response_header"; }
+        else { c.rs_body_at = 0; rs = "HTTP/1.1 200 " + fill + "\r\n"; c.kind = "long_line_response_status"; }
+        if (where <= 2) c.rs_body_at = rs.size(); else c.rq_body_at = rq.size();
+        c.rq = rq + "\r\n"; c.rs = rs + "Content-Length: 2\r\n\r\nok"; c.long_line = L; return c; }
+    if (k == 4 && !C03_HAVE_LZMA) k = 3;
     std::string qh = "POST /form?q=1 HTTP/1.1\r\nHost: h.example\r\n", sh = "HTTP/1.1 200 OK\r\n", qb, sb = "ok";
     std::string qx, sx;
     if (k == 0) { std::string ct; qb = gen_multipart(ct); qx = "Content-Type: " + ct + "\r\n"; c.kind = "multipart_request"; }
     else if (k == 1) { qb = gen_urlencoded(); qx = "Content-Type: application/x-www-form-urlencoded\r\n"; c.kind = "urlencoded_request"; }
+    else if (k == 4) { std::string plain; int n = rcx::range(1, 30); for (int i = 0; i < n; i++) plain += std::string((size_t)rcx::range(1, 40), (char)('a' + rcx::range(0, 3))); sb = lzpack(plain); sx = "Content-Encoding: lzma\r\n"; qb = ""; c.kind = "lzma_response"; }
     else { static const int WB[] = {31, 15, -15}; int w = rcx::range(0, 2); std::string plain; int n = rcx::sized(0, 30); bool big = rcx::chance(1, 8); if (big) { n = 0; int m = 8192 + rcx::range(1, 300); uint64_t x = (uint64_t)rcx::range(1, 1 << 30); for (int i = 0; i < m; i++) { x = vc::mix(x + i); plain += (char)(x & 0xff); } c.big = true; } // incompressible, just over one 8 KiB output buffer
         for (int i = 0; i < n; i++) plain += rcx::chance(1, 3) ? std::string((size_t)rcx::range(1, 40), (char)('a' + rcx::range(0, 3))) : std::string(1, (char)rcx::range(0, 255));
         sb = zpack(plain, WB[w]); c.restart_expected = w == 1; if (rcx::chance(1, 6) && !sb.empty()) { sb.resize(sb.size() - (size_t)rcx::range(0, (int)std::min<size_t>(8, sb.size()))); c.restart_expected = true; } // possibly truncated stream
@@ -204,6 +225,7 @@ static void campaign_bodies() {
         bool rqside = b.kind.find("request") != std::string::npos;
         const std::string &w = rqside ? b.rq : b.rs; size_t from = rqside ? b.rq_body_at : b.rs_body_at;
         for (size_t c = from > 2 ? from - 2 : 1; c < w.size() && c < from + 400; c++) { if (auto f = rqside ? one({c}, {}) : one({}, {c})) return f; if (counting) { g_stats.nt(vc::fnv1a(w, c + 200000)); g_stats.cls("cut_inside_parsed_body"); } }
+        if (b.long_line) for (int q = 0; q < 24; q++) { size_t c = from + 1 + (size_t)rcx::range(0, (int)b.long_line); if (c >= w.size()) continue; if (auto f = rqside ? one({c}, {}) : one({}, {c})) return f; if (counting) g_stats.cls("cut_inside_line_longer_than_soft_limit"); }
         if (b.big && !rqside) for (size_t c = from + 8192 - 30; c < from + 8192 + 60 && c < w.size(); c++) { if (auto f = one({}, {c})) return f; if (counting) g_stats.cls("cut_where_inflate_output_buffer_fills"); } // the call's input can run out exactly when the decoder's buffer is full
         { std::vector<size_t> all; for (size_t c = 1; c < w.size() && c < 4000; c++) all.push_back(c); if (auto f = rqside ? one(all, {}) : one({}, all)) return f; }
         for (int k = 0; k < 6; k++) { std::vector<size_t> cs; int n = rcx::range(2, 6); for (int i = 0; i < n && w.size() > 1; i++) cs.push_back((size_t)rcx::range(1, (int)w.size() - 1)); std::sort(cs.begin(), cs.end()); if (auto f = rqside ? one(cs, {}) : one({}, cs)) return f; }
